@@ -17,6 +17,7 @@ REGISTRY = {
     "C15": ("vf.props.treeprops", "C15"),
     "C03": ("vf.props.parser", "C03"),
     "C10": ("vf.props.parser", "C10"),
+    "C04": ("vf.props.printer", None),
     "C06": ("vf.props.rules_struct", "C06"),
     "C07": ("vf.props.rules_struct", "C07"),
 }
